@@ -36,7 +36,8 @@ type handle struct {
 	base     *hookM // hook of the chain this handle was created on
 	owner    int
 	live     bool // creation completed and Release not yet invoked
-	released bool
+	released bool // Release invoked
+	relDone  bool // Release returned
 }
 
 type run struct {
@@ -209,6 +210,7 @@ func (r *run) newHandle(c *capnp.Client, base *hookM, owner int) *handle {
 
 type taskState struct {
 	id       int
+	borrowed []*handle // handles owned by another task; we only make calls through them
 	own      []*handle
 	weak     []*weakRef
 	promises []*promRec
@@ -235,6 +237,7 @@ func (r *run) liveOf(ts *taskState) []*handle {
 }
 
 func (r *run) doCall(ts *taskState, hd *handle, recv bool) {
+	borrowed := hd.owner != ts.id
 	s := r.s
 	r.nextCal++
 	id := r.nextCal
@@ -250,7 +253,7 @@ func (r *run) doCall(ts *taskState, hd *handle, recv bool) {
 			break
 		}
 	}
-	wasReleased := hd.released
+	wasReleased := hd.relDone // Release had returned before this call was invoked
 	_, endsNilBefore := chain(hd.base)
 	s.Logf("task %d call %d on c%d recv=%v released=%v", ts.id, id, hd.id, recv, wasReleased)
 	var err error
@@ -284,9 +287,12 @@ func (r *run) doCall(ts *taskState, hd *handle, recv bool) {
 		return
 	}
 	if len(cr.delivered) == 0 {
-		// legitimate only if the chain ends in null (now) - a call on a null client
+		// legitimate only if the chain ends in null (now) - a call on a null client -
+		// or, for a handle shared with its owner, if the owner released it meanwhile
 		_, endsNil := chain(hd.base)
-		if !endsNil && !endsNilBefore {
+		if borrowed && hd.released {
+			s.Probe("shared_handle_released_during_call")
+		} else if !endsNil && !endsNilBefore {
 			s.Fail("delivered_never", "capability.go:SendCall", fmt.Sprintf("call %d on live handle c%d (base H%d) reached no hook: err=%v", id, hd.id, hd.base.id, err))
 		}
 		if err == nil {
@@ -328,6 +334,7 @@ func (r *run) release(ts *taskState, hd *handle) {
 	hd.live = false
 	hd.released = true
 	hd.c.Release()
+	hd.relDone = true
 	r.s.Logf("task %d release c%d done", ts.id, hd.id)
 }
 
@@ -350,7 +357,10 @@ func (r *run) fulfill(ts *taskState, pr *promRec, target *handle) {
 	m.fReturned = true
 	s.Logf("task %d fulfill H%d returned", ts.id, m.id)
 	if m.shutdown != 1 {
-		s.Fail("promise_hook_not_shutdown", "capability.go:(*ClientPromise).Fulfill", fmt.Sprintf("after Fulfill returned, promised hook H%d has been shut down %d times (want 1)", m.id, m.shutdown))
+		// Not a verdict: when the promised client ran out of references while a call was
+		// in flight, the releasing goroutine performs the Shutdown and may not have been
+		// scheduled yet.  The end-of-run check requires exactly one Shutdown.
+		s.Probe("fulfill_returned_before_concurrent_release_shutdown")
 	}
 }
 
@@ -359,8 +369,12 @@ func (r *run) taskBody(ts *taskState, nops int) {
 	for i := 0; i < nops && !s.Failed(); i++ {
 		r.ops++
 		live := r.liveOf(ts)
-		op := s.Choice("op", 12)
+		op := s.Choice("op", 14)
 		switch {
+		case op >= 12 && len(ts.borrowed) > 0: // call through a handle another task owns (and may release at any time)
+			hd := ts.borrowed[s.Choice("b", len(ts.borrowed))]
+			s.Probe("call_on_shared_handle")
+			r.doCall(ts, hd, op == 13)
 		case op == 0 && len(live) > 0: // AddRef
 			hd := live[s.Choice("h", len(live))]
 			s.Logf("task %d addref c%d", ts.id, hd.id)
@@ -523,7 +537,16 @@ func (Engine) Run(t *testing.T, tape *simrt.Tape, opt worker.Options) *worker.Ou
 			for _, root := range roots {
 				if s.Choice("give", 3) != 0 {
 					c := root.c.AddRef()
-					ts.own = append(ts.own, r.newHandle(c, root.base, ts.id))
+					hd := r.newHandle(c, root.base, ts.id)
+					ts.own = append(ts.own, hd)
+					if s.Choice("lend", 3) == 0 {
+						// Client is documented as safe for use from multiple goroutines:
+						// another task makes calls through this very handle
+						other := tasks[s.Choice("lend-to", nt)]
+						if other != ts {
+							other.borrowed = append(other.borrowed, hd)
+						}
+					}
 				}
 			}
 		}
